@@ -2,7 +2,7 @@
     oracle, compare with what the real generator / go/types / the compiled decode program did.
     Executable only (extracted / vm_compute). *)
 From Coq Require Import List NArith ZArith Bool String.
-From ApiFu Require Import Base.Sexp Gen.GoTypes Gen.ClientGenModel Gen.DecodeModel Gen.ClientGenSpec.
+From ApiFu Require Import Base.Sexp Gen.GoTypes Gen.ClientGenModel Gen.DecodeModel Gen.ClientGenSpec Gen.LoadSchemaModel.
 Import ListNotations.
 Open Scope list_scope.
 Open Scope string_scope.
@@ -502,7 +502,8 @@ Definition has_frag_leaf (l : list (path * leaf)) : bool :=
   existsb (fun pl => existsb (fun s => match s with PFrag _ => true | _ => false end) (fst pl)) l.
 
 Definition oracle_key (S : schema) (d : document) (specific : string) : string :=
-  if excl_member_clash S d then "member-name-clash"
+  if negb (schema_loadable S) then "type-ref-deeper-than-introspection-query"
+  else if excl_member_clash S d then "member-name-clash"
   else if excl_decl_clash S d then "decl-name-clash"
   else specific.
 
@@ -584,7 +585,7 @@ Definition check (c : sexp) : sexp :=
               if valid && negb is_linked then v_bad "valid-document-does-not-link"
               else if valid && decl_safe Sch d && excl_decl_clash Sch d then v_bad "decl-safe-does-not-exclude-clash"
               else
-              let m := generate no_quirks Sch valid d in
+              let m := generate_cli no_quirks Sch valid d in
               let in_env := valid && env Sch d in
               let oracle :=
                 if negb valid then
@@ -642,6 +643,7 @@ Definition check (c : sexp) : sexp :=
                                       v_ok (["valid"; "generated"] ++
                                             (if in_env then ["in-envelope"] else ["outside-envelope"]) ++
                                             (if decl_safe Sch d then ["decl-safe"] else ["decl-unsafe-by-names"]) ++
+                                            (if existsb (fun t => Nat.eqb (wrappers t) typeref_depth) (field_types Sch) then ["seven-wrappers"] else []) ++
                                             (if cb then ["compiles"] else ["does-not-compile"]) ++
                                             (if cb && negb (order_free d) then ["decode-not-compared-field-order-dependent"] else []) ++
                                             (if shape_same then ["shape-same"] else ["shape-differs"]) ++
@@ -658,7 +660,8 @@ Definition check (c : sexp) : sexp :=
                             | None => v_bad "no-compile-observation"
                             end
                         | GRejected => v_ok ["invalid"; "rejected"]
-                        | GError => v_ok ["valid"; "generator-error"; (if in_env then "in-envelope" else "outside-envelope")]
+                        | GError => v_ok (["valid"; "generator-error"; (if in_env then "in-envelope" else "outside-envelope")] ++
+                                          (if schema_loadable Sch then [] else ["load-schema-error"]))
                         | GPanic => v_ok ["valid"; "generator-panic"]
                         | GOutOfFuel => v_bad "fuel"
                         end
